@@ -259,7 +259,7 @@ fn run_sign_rt(plan: &Plan, lib: &dyn Lib, rec: &mut Rec) {
 // ------------------------------------------------------------------------------------------
 // C02
 // ------------------------------------------------------------------------------------------
-const N_PERTURB: u64 = 22;
+const N_PERTURB: u64 = 24;
 
 struct Tuple {
     pk: Vec<u8>,
@@ -324,6 +324,8 @@ fn run_tamper(plan: &Plan, lib: &dyn Lib, rec: &mut Rec) {
         18 => { t.msg.push(0); "msg-zero-appended" }
         19 => { t.sig = refimpl::layout::tagged(sig[0], &sp.gen_like().mul(&k).to_bytes()); "unrelated-point" }
         20 => { t.pk = pkp.mul(&k).to_bytes(); t.sig = refimpl::layout::tagged(sig[0], &sp.mul(&k).to_bytes()); "pk*k-with-sig*k (two components)" }
+        21 => { t.sig = refimpl::layout::tagged(sig[0], &sp.add(&refimpl::small_order_point(g.sig_len(), salt)).to_bytes()); "sig+T(small order)" }
+        22 => { t.pk = pkp.add(&refimpl::small_order_point(g.pk_len(), salt)).to_bytes(); "pk+T(small order)" }
         _ => { "in-flight-bitflip" }
     };
     rec.fault("byz-relay");
@@ -352,7 +354,7 @@ fn run_tamper(plan: &Plan, lib: &dyn Lib, rec: &mut Rec) {
         c.finish(rec);
         return;
     }
-    if mode >= 21 {
+    if mode >= 23 {
         // random in-flight corruption of the encodings
         let part = (salt % 2) as usize;
         c.fault(K_RESP, 0, NetAction::BitFlip { part, bit: (salt >> 1) as usize });
@@ -745,6 +747,16 @@ fn run_registry(plan: &Plan, lib: &dyn Lib, rec: &mut Rec) {
         if alt != q {
             rec.expect("C09", "altered-pop-rejected", !out.is_ok(), || format!("perturbed {} key_class={} g={} | altered proof accepted", label, class, g.name()));
         }
+    }
+    // the honest proof plus a point of small order (T = r*Q): other bytes, same pairing value — a decoder that
+    // skips the subgroup check lets it through
+    for k in 0..3u64 {
+        let t = refimpl::small_order_point(g.sig_len(), plan.seed.wrapping_add(k));
+        let shifted = Pt::from_bytes(pop).unwrap().add(&t).to_bytes();
+        rec.fault("byz-small-order-component");
+        let out = rec.call(lib, g, Op::PopVerify, &[&shifted, &p.pk]);
+        rec.case(&[9, g as u64, *class, k, 97], true);
+        rec.expect("C09", "altered-pop-rejected", !out.is_ok(), || format!("pi+T(small order) key_class={} g={} | the proof shifted by a small-order point (different bytes) is accepted", class, g.name()));
     }
     // a proof carrying a small-order component, presented as bytes, is a different proof: never accepted
     let off = refimpl::off_subgroup_point(g.sig_len(), plan.seed);
